@@ -5,6 +5,7 @@ import (
 	"flag"
 	"fmt"
 	"os"
+	"os/exec"
 	"runtime/debug"
 	"sort"
 	"strings"
@@ -27,7 +28,25 @@ func Main() int {
 	only := flag.String("only", "", "restrict printed obligations to this rule id (debug)")
 	dump := flag.Bool("dump", false, "print every obligation (debug)")
 	list := flag.Bool("list", false, "list properties")
+	decls := flag.String("decls", DefaultDeclsPath(), "declaration snapshot for rename tolerance (read only; \"none\" disables)")
+	writeDecls := flag.String("write-decls", "", "write the declaration snapshot of -repo to this file and exit")
 	flag.Parse()
+	if *writeDecls != "" {
+		DeclsPath = ""
+		p := Load(*repo, "", false)
+		commit := ""
+		if out, err := exec.Command("git", "-C", *repo, "rev-parse", "--short", "HEAD").Output(); err == nil {
+			commit = strings.TrimSpace(string(out))
+		}
+		if err := WriteDecls(p, *writeDecls, commit); err != nil {
+			fmt.Printf("CHECKER-ERROR %v\n", err)
+			return 3
+		}
+		return 0
+	}
+	if *decls != "none" {
+		DeclsPath = *decls
+	}
 	if *list {
 		var ids []string
 		for id := range registry {
